@@ -26,15 +26,25 @@
 (***************************************************************************)
 EXTENDS ProtoCodec
 
-CONSTANTS FixSplit    \* TRUE: later occurrences of a templated embedded message are merged, not dropped
+CONSTANTS FixSplit,   \* TRUE: later occurrences of a templated embedded message are merged, not dropped
+          FixOrLast   \* TRUE: a bit-or rule combines the mask with the field's value (its LAST occurrence); FALSE (as the
+                      \*       code is): with the first occurrence it meets, later ones are dropped
 
 VARIABLE tmpl         \* sequence over fields: [t |-> "keep"] | [t |-> "set", x |-> value] | [t |-> "sub", xs |-> nested template]
+                      \*   | [t |-> "or", x |-> mask]   (RewriterRules with BitOr: the field becomes value | mask)
 
 rvars == <<shape, val, wire, step, tmpl>>
 
 Keep == [t |-> "keep", x |-> S(0), xs |-> <<>>]
 Set(x) == [t |-> "set", x |-> x, xs |-> <<>>]
 Sub(xs) == [t |-> "sub", x |-> S(0), xs |-> xs]
+Or(x) == [t |-> "or", x |-> x, xs |-> <<>>]
+
+\* bit-or rules apply to the integer kinds
+IntKinds == {"int","i32","i64","s32","s64","uint","u32","u64","x32","x64"}
+\* value ids are abstract; "value a or-ed with mask m" is the id 100 + 10 a + m (masks are a namespace of
+\* their own: mask 0 = no bits, so or-ing with it changes nothing); the harness computes the number
+OrId(a, m) == IF m = 0 THEN a ELSE 100 + 10 * a + m
 
 \* template values offered for one field (small on purpose: the value space is ProtoCodec's business)
 TemplateElems(k) == IF k \in MsgKinds THEN SubValues(k) ELSE {S(0), S(1)}
@@ -43,21 +53,26 @@ FieldTemplates(f) ==
   LET E == TemplateElems(f.k) IN
   {Keep} \cup
   CASE f.c = "one" -> (IF f.k \in MsgKinds THEN {Sub(t) : t \in SubTemplates(f.k)} ELSE {Set(e) : e \in E})
+                      \cup (IF f.k \in IntKinds THEN {Or(S(0)), Or(S(1))} ELSE {})
     [] f.c = "ptr" -> (IF f.k \in MsgKinds THEN {Sub(t) : t \in SubTemplates(f.k)} ELSE {Set(V("p", 0, <<S(1)>>))})
+                      \cup (IF f.k \in IntKinds THEN {Or(S(1))} ELSE {})
     [] f.c = "rep" -> {Set(V("r", 0, <<e>>)) : e \in E} \cup {Set(V("r", 0, <<e1, e2>>)) : e1 \in E, e2 \in E}
     [] f.c = "map" -> IF f.mk = "str" THEN {Set(V("m", 0, <<V("e", 1, <<e>>)>>)) : e \in E} ELSE {}
 \* nested templates: each scalar field of the sub-shape kept or set to id 1
 SubTemplates(k) ==
   LET sh == SubShape(k) IN
-  {t \in [1..Len(sh) -> {Keep, Set(S(1))}] :
-      /\ \E i \in 1..Len(sh) : t[i].t = "set"          \* a nested template names at least one field
-      /\ \A i \in 1..Len(sh) : t[i].t = "set" => (sh[i].c = "one" /\ sh[i].k \in ScalarKinds)}
+  {t \in [1..Len(sh) -> {Keep, Set(S(1)), Or(S(1))}] :
+      /\ \E i \in 1..Len(sh) : t[i].t # "keep"         \* a nested template names at least one field
+      /\ \A i \in 1..Len(sh) : t[i].t = "set" => (sh[i].c = "one" /\ sh[i].k \in ScalarKinds)
+      /\ \A i \in 1..Len(sh) : t[i].t = "or" => (sh[i].c = "one" /\ sh[i].k \in IntKinds)}   \* nested RewriterRules
 
 \* ---- the definition
 RECURSIVE ApplyTemplate(_, _, _)
 ApplyField(f, cur, t) ==
   CASE t.t = "keep" -> cur
     [] t.t = "set"  -> t.x
+    [] t.t = "or"   -> IF f.c = "ptr" THEN V("p", 0, <<S(OrId(IF cur.t = "nil" THEN 0 ELSE cur.xs[1].v, t.x.v))>>)
+                       ELSE S(OrId(cur.v, t.x.v))
     [] t.t = "sub"  -> IF f.c = "ptr"
                        THEN V("p", 0, <<ApplyTemplate(SubShape(f.k), IF cur.t = "nil" THEN ZeroMsg(SubShape(f.k)) ELSE cur.xs[1], t.xs)>>)
                        ELSE ApplyTemplate(SubShape(f.k), cur, t.xs)
@@ -73,12 +88,14 @@ Templated(sh, tm, n) == \E i \in 1..Len(sh) : Num(sh, i) = n /\ tm[i].t # "keep"
 TIndex(sh, n) == CHOOSE i \in 1..Len(sh) : Num(sh, i) = n
 
 RECURSIVE AlgMsg(_, _, _), AlgWalk(_, _, _, _), AlgTail(_, _, _, _)
+LastOf(w, n) == LET rs == SelectSeq(w, LAMBDA r : r.n = n) IN rs[Len(rs)]
 
 \* records the template writes for field i when the field's (first) input record is rec (or absent)
 TemplateRecs(sh, tm, i, present, rec) ==
   LET f == sh[i]
       n == Num(sh, i) IN
   IF tm[i].t = "set" THEN WireField(f, n, tm[i].x)
+  ELSE IF tm[i].t = "or" THEN <<R(n, WT(f.k), f.k, OrId(IF present THEN rec.v ELSE 0, tm[i].x.v), <<>>)>>   \* always written
   ELSE LET inner == AlgMsg(SubShape(f.k), IF present THEN rec.sub ELSE <<>>, tm[i].xs) IN
        IF inner = <<>> THEN <<>> ELSE <<R(n, 2, f.k, 0, inner)>>
 
@@ -91,7 +108,8 @@ AlgWalk(sh, w, tm, seen) ==
             THEN (IF FixSplit /\ tm[i].t = "sub"
                   THEN <<R(rec.n, 2, rec.k, 0, AlgMsg(SubShape(sh[i].k), rec.sub, tm[i].xs))>>   \* merged, not dropped
                   ELSE <<>>) \o AlgWalk(sh, Tail(w), tm, seen)
-            ELSE TemplateRecs(sh, tm, i, TRUE, rec) \o AlgWalk(sh, Tail(w), tm, seen \cup {i})
+            ELSE TemplateRecs(sh, tm, i, TRUE, IF FixOrLast /\ tm[i].t = "or" THEN LastOf(w, rec.n) ELSE rec)
+                 \o AlgWalk(sh, Tail(w), tm, seen \cup {i})
        ELSE <<rec>> \o AlgWalk(sh, Tail(w), tm, seen)
 AlgTail(sh, tm, seen, i) ==
   IF i > Len(sh) THEN <<>>
